@@ -131,8 +131,8 @@ type SpecOp struct {
 }
 
 type Edge struct {
-	F SpecState `json:"f"`
-	O SpecOp    `json:"o"`
+	F SpecState  `json:"f"`
+	O SpecOp     `json:"o"`
 	T *SpecState `json:"t"` // nil: same as F
 }
 
